@@ -463,6 +463,12 @@ func (vc *VC) onceLiteralEntry(st *State) {
 	// a literal without captured variables is used as a plain function value
 	for _, b := range par.Blocks {
 		for _, in := range b.Instrs {
+			if _, isDbg := in.(*ssa.DebugRef); isDbg {
+				continue
+			}
+			if _, isMC := in.(*ssa.MakeClosure); isMC {
+				continue // handled above
+			}
 			var rands [10]*ssa.Value
 			for _, op := range in.Operands(rands[:0]) {
 				if op == nil || *op != ssa.Value(fn) {
